@@ -210,6 +210,8 @@ def run_check(
                 extra[k] = extra.get(k, 0) + v
             elif isinstance(v, bool):
                 extra[k] = extra.get(k, True) and v
+            elif isinstance(v, dict):
+                extra.setdefault(k, {}).update(v)
             else:
                 extra.setdefault(k, v)
         notes.extend(p["notes"])
